@@ -50,6 +50,7 @@ conditional (later conditions with the same name and every reference in the chos
 reuse the value, nothing is evaluated again); unless is the complement of a one-condition
 if; call evaluates once and contributes no text.
 """
+import collections
 
 TRUE = [True, 1, 'x', [0]]
 FALSE = [False, 0, '', [], None]
@@ -227,6 +228,8 @@ def conditional_source(case):
 
 
 def build_source(case):
+    if case.get('ns'):
+        return ns_source(case)
     syn = Syn(case['style'])
     o, c = syn.open, syn.close
     exc = case.get('exc')
@@ -359,7 +362,15 @@ def predict(case):
     events = []
     text, chosen = one_conditional(case, events)
     outer = case.get('outer')
-    if outer in ('in', 'twice'):
+    if case.get('ns'):
+        # every element of an enclosing dtml-in / every copy is a new conditional in the same namespace;
+        # the tags that add sources contribute no text
+        first = text
+        for _ in range(ns_multiplicity(case) - 1):
+            text2, chosen2 = one_conditional(case, events)
+            assert (text2, chosen2) == (first, chosen)
+            text = text + text2
+    elif outer in ('in', 'twice'):
         # the second element / the second copy is a new conditional: nothing is remembered
         text2, chosen2 = one_conditional(case, events)
         assert (text2, chosen2) == (text, chosen)
@@ -767,3 +778,384 @@ def make_script_namespace(script, ri, rec):
         else:
             raise ValueError(k)
     return LogMap(rec, logged), kw
+
+
+# ------------------------------------------------------------------ namespace sources ('ns' cases)
+"""A chain / unless / call case may carry a key 'ns': the conditional is then rendered in a namespace
+built from several *sources* of different kinds instead of the one logging mapping + keyword
+arguments of the other families.  "A name that is not defined" is a name that no source of the
+namespace has; every source says so in its own way (a mapping raises some KeyError, an object some
+AttributeError) and the wording of that exception is not the engine's business: the name is undefined
+and counts as false.
+
+    'ns': {'g': bool,                       # defaults given when the template is created (keyword arguments)
+           'm': None | mapping style,       # the mapping argument of the call
+           'c': [object style, ...],        # 0..2 client objects (two: a tuple of clients)
+           'ctuple': bool,                  # a single client passed as a 1-tuple
+           'v': bool,                       # variables set on the template with .var()
+           'k': bool,                       # keyword arguments of the call
+           'sub': None | 'plain' | 'defaults',   # the conditional (with its inner tags) is the source of a
+                                            #   sub-template (created without / with defaults) which the
+                                            #   main template inserts by name: it is rendered in the
+                                            #   caller's namespace
+           'inner': [[kind, style], ...],   # tags around the conditional that add a source, outermost first
+           'place': {name: slot}}           # the source that binds each name; slots: g m c0 c1 v k s i0 i1 ..
+
+Inner tags: with (object), withm (<dtml-with X mapping>), witho / withmo (... only: the namespace inside
+consists of that one source), inm / ino (dtml-in over two mappings / two objects: every element is a
+source and a new conditional), let, withns (<dtml-with "_.namespace(..)">).
+
+Mapping styles = what the mapping is and what it raises for a key it does not have; object styles =
+what the object raises for an attribute it does not have (see key_error / OBJ_CLASSES).  The model does
+not look at styles at all.
+"""
+
+SUPPORT = ('two', 'wobj', 'tt', 'ff', 'probe')
+# real mapping types first, then the lookalikes that differ in their KeyError only
+MAP_STYLES = ('dict', 'dictsub', 'chainmap', 'missing', 'key', 'lower', 'msg', 'none', 'pair', 'other',
+              'sub', 'tuple')
+OBJ_STYLES = ('std', 'name', 'msg', 'none', 'sub')
+INNER_KINDS = ('with', 'withm', 'witho', 'withmo', 'inm', 'ino', 'let', 'withns')
+INNER_MAPPING = ('withm', 'withmo', 'inm')
+INNER_OBJECT = ('with', 'witho', 'ino')
+INNER_ONLY = ('witho', 'withmo')
+INNER_DOUBLE = ('inm', 'ino')
+CALL_SLOTS = ('m', 'c0', 'c1', 'k')          # sources given with the call (they can hold per-render objects)
+
+
+class OddKeyError(KeyError):
+    pass
+
+
+class OddAttributeError(AttributeError):
+    pass
+
+
+def key_error(style, key):
+    """What a mapping of the style raises for a key it does not have."""
+    if style == 'lower':
+        return KeyError(key.lower())                    # a case-insensitive mapping reports the folded key
+    if style == 'msg':
+        return KeyError('no such column: %s' % key)
+    if style == 'none':
+        return KeyError()
+    if style == 'pair':
+        return KeyError(key, 'is not here')
+    if style == 'other':
+        return KeyError('row.' + key)                   # a view reporting the key of the mapping behind it
+    if style == 'sub':
+        return OddKeyError('%r is not defined' % key)
+    if style == 'tuple':
+        return KeyError((key,))
+    return KeyError(key)
+
+
+class OddMap:
+    """A minimal mapping (only __getitem__): lookups of the names in `logged` are evaluation events."""
+
+    def __init__(self, rec, data, style, logged=()):
+        self.rec, self.style, self.logged = rec, style, logged
+        self.fold = style == 'lower'
+        self.data = dict((k.lower(), v) for k, v in data.items()) if self.fold else dict(data)
+
+    def __getitem__(self, key):
+        k = key.lower() if self.fold and isinstance(key, str) else key
+        if k not in self.data:
+            raise key_error(self.style, key)
+        if key in self.logged:
+            self.rec.log('get', key)
+        return self.data[k]
+
+
+class _Logging:
+    _rec = None
+    _logged = ()
+
+    def _log(self, key):
+        if key in self._logged:
+            self._rec.log('get', key)
+
+
+class LogDict(_Logging, dict):
+    def __getitem__(self, key):
+        v = dict.__getitem__(self, key)
+        self._log(key)
+        return v
+
+
+class LogChain(_Logging, collections.ChainMap):
+    def __getitem__(self, key):
+        v = collections.ChainMap.__getitem__(self, key)         # KeyError raised by ChainMap.__missing__
+        self._log(key)
+        return v
+
+
+class LogUser(_Logging, collections.UserDict):
+    def __missing__(self, key):
+        raise KeyError('there is no item named %r here' % (key,))
+
+    def __getitem__(self, key):
+        v = collections.UserDict.__getitem__(self, key)
+        self._log(key)
+        return v
+
+
+def make_map(rec, style, data, logged=()):
+    if style == 'dict':
+        return dict(data)
+    if style == 'dictsub':
+        m = LogDict(data)
+    elif style == 'chainmap':
+        m = LogChain({}, dict(data))
+    elif style == 'missing':
+        m = LogUser(data)
+    elif style in MAP_STYLES:
+        return OddMap(rec, data, style, logged)
+    else:
+        raise ValueError(style)
+    m._rec, m._logged = rec, logged
+    return m
+
+
+class ObjStd:
+    """No __getattr__: the interpreter's own AttributeError."""
+
+
+class ObjName:
+    def __getattr__(self, name):
+        raise AttributeError(name)
+
+
+class ObjMsg:
+    def __getattr__(self, name):
+        raise AttributeError('this record has no column called %s, sorry' % name.upper())
+
+
+class ObjNone:
+    def __getattr__(self, name):
+        raise AttributeError()
+
+
+class ObjSub:
+    def __getattr__(self, name):
+        raise OddAttributeError(len(name))
+
+
+OBJ_CLASSES = {'std': ObjStd, 'name': ObjName, 'msg': ObjMsg, 'none': ObjNone, 'sub': ObjSub}
+
+
+def make_obj(style, attrs):
+    o = OBJ_CLASSES[style]()
+    o.__dict__.update(attrs)
+    return o
+
+
+def ns_slots(ns):
+    """Slots of the sources that can bind names, in no particular order."""
+    out = []
+    if ns.get('g'):
+        out.append('g')
+    if ns.get('m'):
+        out.append('m')
+    out += ['c%d' % i for i in range(len(ns.get('c') or ()))]
+    if ns.get('v'):
+        out.append('v')
+    if ns.get('k'):
+        out.append('k')
+    if ns.get('sub') == 'defaults':
+        out.append('s')
+    for i, (kind, style) in enumerate(ns.get('inner') or ()):
+        if kind in INNER_MAPPING or kind in INNER_OBJECT:
+            out.append('i%d' % i)
+    return out
+
+
+def ns_only(ns):
+    """Index of the innermost `only` tag or None: inside it the namespace is that source (and deeper ones)."""
+    idx = None
+    for i, (kind, style) in enumerate(ns.get('inner') or ()):
+        if kind in INNER_ONLY:
+            idx = i
+    return idx
+
+
+def ns_loggable(ns):
+    """Slots whose source can report lookups (mappings that are not an exact dict)."""
+    out = []
+    if ns.get('m') and ns['m'] != 'dict':
+        out.append('m')
+    for i, (kind, style) in enumerate(ns.get('inner') or ()):
+        if kind in INNER_MAPPING and style != 'dict':
+            out.append('i%d' % i)
+    return out
+
+
+def ns_stack(ns):
+    """The sources an undefined name of the conditional falls through, outermost first:
+    [(slot, 'map' | 'obj' | 'dict', style)] (the conditional's own scratch space is not a source)."""
+    st = []
+    if ns.get('g'):
+        st.append(('g', 'dict', 'dict'))
+    if ns.get('m'):
+        st.append(('m', 'map', ns['m']))
+    for i, s in enumerate(ns.get('c') or ()):
+        st.append(('c%d' % i, 'obj', s))
+    if ns.get('v'):
+        st.append(('v', 'dict', 'dict'))
+    if ns.get('k'):
+        st.append(('k', 'dict', 'dict'))
+    if ns.get('sub') == 'defaults':
+        st.append(('s', 'dict', 'dict'))
+    for i, (kind, style) in enumerate(ns.get('inner') or ()):
+        if kind in INNER_ONLY:
+            st = []
+        if kind in INNER_MAPPING:
+            st.append(('i%d' % i, 'map', style))
+        elif kind in INNER_OBJECT:
+            st.append(('i%d' % i, 'obj', style))
+        elif kind == 'let':
+            st.append(('i%d' % i, 'dict', 'dict'))
+        elif kind == 'withns':
+            st.append(('i%d' % i, 'obj', 'name'))
+    return st
+
+
+def ns_multiplicity(case):
+    """How many times the conditional is rendered by one render of the template."""
+    m = 2 if case.get('outer') in ('in', 'twice') else 1
+    for kind, style in (case.get('ns') or {}).get('inner') or ():
+        if kind in INNER_DOUBLE:
+            m *= 2
+    return m
+
+
+def ns_plain(case):
+    """The same case with every source an ordinary dict / an ordinary object."""
+    ns = dict(case['ns'])
+    if ns.get('m'):
+        ns['m'] = 'dict'
+    ns['c'] = ['std' for _ in ns.get('c') or ()]
+    ns['inner'] = [[kind, 'dict' if kind in INNER_MAPPING else 'std'] for kind, style in ns.get('inner') or ()]
+    return dict(case, ns=ns)
+
+
+def make_script_call(script, ri, rec):
+    """-> (client, mapping, kw) of one render of a script template.  script['nsrc'][ri] (optional) says how
+    the bindings of the round reach the template: None = keyword arguments + the logging mapping (as ever);
+    ['m', style] = everything in one mapping of that style (the only source of the namespace);
+    ['c', style] = the callables and plain values as attributes of a client object of that style;
+    ['mk', style] = the mapping argument is of that style (it holds the logged values, if any, and a
+    padding item), the other bindings are keyword arguments as before."""
+    mapping, kw = make_script_namespace(script, ri, rec)
+    how = (script.get('nsrc') or [None] * (ri + 1))[ri]
+    if not how:
+        return None, mapping, kw
+    kind, style = how
+    if kind in ('m', 'mk') and style == 'dict' and mapping.data:
+        style = 'dictsub'               # logged values need a mapping that can report lookups
+    if kind == 'm':
+        data = dict(kw)
+        data.update(mapping.data)
+        return None, make_map(rec, style, data, set(mapping.data)), {}
+    if kind == 'c':
+        return make_obj(style, kw), mapping, {}
+    if kind == 'mk':
+        data = dict(mapping.data)
+        data['Pad'] = 'p'
+        return None, make_map(rec, style, data, set(mapping.data)), kw
+    raise ValueError(kind)
+
+
+def ns_inner_open_close(syn, i, kind):
+    o, c = syn.open, syn.close
+    if kind == 'with':
+        return o('with', 'nw%d' % i), c('with')
+    if kind == 'withm':
+        return o('with', 'nw%d mapping' % i), c('with')
+    if kind == 'witho':
+        return o('with', 'nw%d only' % i), c('with')
+    if kind == 'withmo':
+        return o('with', 'nw%d mapping only' % i), c('with')
+    if kind == 'inm':
+        return o('in', 'nw%d mapping' % i), c('in')
+    if kind == 'ino':
+        return o('in', 'nw%d' % i), c('in')
+    if kind == 'let':
+        return o('let', 'nq%d="1"' % i), c('let')
+    if kind == 'withns':
+        return o('with', '"_.namespace(nq%d=1)"' % i), c('with')
+    raise ValueError(kind)
+
+
+def ns_inner_source(case):
+    """The conditional inside its source-adding tags (the text of the sub-template when there is one)."""
+    syn = Syn(case['style'])
+    s = conditional_source(case)
+    inner = case['ns'].get('inner') or ()
+    for i in reversed(range(len(inner))):
+        a, b = ns_inner_open_close(syn, i, inner[i][0])
+        s = a + s + b
+    return s
+
+
+def ns_source(case):
+    syn = Syn(case['style'])
+    if case['ns'].get('sub'):
+        inner = syn.open('var', 'nsub')
+    else:
+        inner = ns_inner_source(case)
+    if case.get('outer'):
+        inner = wrap_source(syn, case['outer'], inner)
+    if case.get('bare'):
+        return inner
+    return PRE + inner + POST
+
+
+def make_ns_render(case, rec, armed=()):
+    """-> (template, client, mapping | None, kw): the compiled template and the arguments of its call."""
+    from DocumentTemplate.DT_HTML import HTML
+    ns = case['ns']
+    place = ns['place']
+    lm, vals = make_namespace(case, rec, armed)
+    logged = set(lm.data)
+    vals.update(lm.data)
+    inner = ns.get('inner') or []
+    data = dict((s, {'Pad' + s: 'p'}) for s in ns_slots(ns))
+    only = ns_only(ns)
+    for name, v in vals.items():
+        data[place[name]][name] = v
+        if only is not None and name in SUPPORT:
+            data['i%d' % only][name] = v            # the bodies' wrapper tags need them inside as well
+    # the objects of the inner tags, innermost first (an object holds what was put into it before)
+    for i in reversed(range(len(inner))):
+        kind, style = inner[i]
+        slot = 'i%d' % i
+        if kind in INNER_MAPPING:
+            if kind == 'inm':
+                obj = [make_map(rec, style, data[slot], logged) for _ in range(2)]
+            else:
+                obj = make_map(rec, style, data[slot], logged)
+        elif kind in INNER_OBJECT:
+            if kind == 'ino':
+                obj = [make_obj(style, data[slot]) for _ in range(2)]
+            else:
+                obj = make_obj(style, data[slot])
+        else:
+            continue
+        host = place['nw%d' % i]
+        data[host]['nw%d' % i] = obj
+    if ns.get('sub'):
+        sub = HTML(ns_inner_source(case), **(data['s'] if ns['sub'] == 'defaults' else {}))
+        data[place['nsub']]['nsub'] = sub
+    tpl = HTML(ns_source(case), **(data['g'] if ns.get('g') else {}))
+    if ns.get('v'):
+        tpl.var(**data['v'])
+    objs = [make_obj(s, data['c%d' % i]) for i, s in enumerate(ns.get('c') or ())]
+    if not objs:
+        client = None
+    elif len(objs) == 1:
+        client = (objs[0],) if ns.get('ctuple') else objs[0]
+    else:
+        client = tuple(objs)
+    mapping = make_map(rec, ns['m'], data['m'], logged) if ns.get('m') else None
+    return tpl, client, mapping, (data['k'] if ns.get('k') else {})
